@@ -752,4 +752,157 @@ theorem delete_symExprs {ir ir' : IR} {b off len : Nat} {px : Bool} {r : Option 
           · injection h with h; injection h with h1 h2; subst h1
             exact exprs_after_edit (content := []) (removeBlock_intervals hr1) hiv rfl
 
+/-! ### a whole `insert`: old expressions stay on their bytes, the patch's arrive at its position -/
+
+/-- `b` has every interval of `a`, with the same expressions (it may have more) -/
+def ExprsKept (a b : IR) : Prop := ∀ j, a.exprsOf j ≠ none → b.exprsOf j = a.exprsOf j
+
+theorem ExprsKept.refl (a : IR) : ExprsKept a a := fun _ _ => rfl
+
+theorem ExprsKept.trans {a b c : IR} (h1 : ExprsKept a b) (h2 : ExprsKept b c) : ExprsKept a c := by
+  intro j hj
+  have hb := h1 j hj
+  rw [h2 j (by rw [hb]; exact hj), hb]
+
+theorem addOtherSection_exprsKept {ir ir' : IR} {p : Patch} {s : PatchSect} {sid bid : Nat} {ns : List Sym}
+    (h : ir.addOtherSection p s sid bid = .ok (ir', ns)) : ExprsKept ir ir' := by
+  obtain ⟨bi, _, hiv⟩ := addOtherSection_intervals h
+  intro j hj
+  unfold IR.exprsOf IR.interval? at *
+  rw [hiv, find_append_some]
+  intro hn; rw [hn] at hj; exact hj rfl
+
+theorem addOthers_exprsKept_aux : ∀ (l : List (PatchSect × Nat × Nat)) (p : Patch) (acc : Except Err IR) (ir0 ir' : IR),
+    (∀ a, acc = .ok a → ExprsKept ir0 a) →
+    l.foldl (fun (acc : Except Err IR) (x : PatchSect × Nat × Nat) =>
+      match acc with
+      | .error e => .error e
+      | .ok i =>
+        match i.addOtherSection { p with syms := i.syms.filter (fun y => p.syms.any (·.id == y.id)) } x.1 x.2.1 x.2.2 with
+        | .error e => .error e
+        | .ok (i', newSyms) =>
+          .ok { i' with syms := i'.syms.map (fun y =>
+            match newSyms.find? (·.id == y.id) with
+            | some ny => ny
+            | none => y) }) acc = .ok ir' → ExprsKept ir0 ir' := by
+  intro l
+  induction l with
+  | nil => intro p acc ir0 ir' hacc h; exact hacc _ h
+  | cons x xs ih =>
+    intro p acc ir0 ir' hacc h
+    simp only [List.foldl_cons] at h
+    refine ih p _ ir0 ir' ?_ h
+    intro a ha
+    split at ha
+    · cases ha
+    · rename_i i
+      split at ha
+      · cases ha
+      · rename_i i2 ns hao
+        injection ha with ha; subst ha
+        have h2 : ExprsKept i2 { i2 with syms := i2.syms.map (fun y =>
+            match ns.find? (·.id == y.id) with
+            | some ny => ny
+            | none => y) } := fun j _ => rfl
+        exact ((hacc i rfl).trans (addOtherSection_exprsKept hao)).trans h2
+
+theorem addOthers_exprsKept {ir ir' : IR} {p : Patch} (h : ir.addOthers p = .ok ir') : ExprsKept ir ir' := by
+  unfold IR.addOthers at h
+  exact addOthers_exprsKept_aux p.others p (.ok ir) ir ir' (fun a ha => by injection ha with ha; subst ha; exact ExprsKept.refl _) h
+
+/-- the patch's expressions are put at `base + k` on top of what the interval holds -/
+theorem addPatchExprs_exprsOf (ir : IR) (i base : Nat) (ex : List (Nat × SymExpr)) (j : Nat) :
+    (ir.addPatchExprs i base ex).exprsOf j =
+      if j = i then (ir.exprsOf i).map (fun m => ex.foldl (fun m (x : Nat × SymExpr) => aset (base + x.1) x.2 m) m)
+      else ir.exprsOf j := by
+  by_cases hj : j = i
+  · subst hj
+    simp only [if_true]
+    unfold IR.addPatchExprs IR.exprsOf
+    cases hbi : ir.interval? j with
+    | none => simp [hbi]
+    | some bi =>
+      simp only [Option.map_some]
+      have hid : bi.id = j := by
+        unfold IR.interval? at hbi
+        have := List.find?_some hbi
+        simpa using this
+      let nv : Interval := { bi with symExprs := ex.foldl (fun m (x : Nat × SymExpr) => aset (base + x.1) x.2 m) bi.symExprs }
+      show ((ir.setInterval nv).interval? j).map (·.symExprs) = _
+      rw [interval?_setInterval_same ir j bi nv hbi hid]
+      rfl
+  · simp only [hj, if_false]
+    unfold IR.exprsOf
+    rw [addPatchExprs_interval?_other _ _ _ _ j hj]
+
+/-- **a whole `insert` keeps every old expression on its byte and puts the patch's expressions at
+the patch position plus their offset inside the patch**; no other interval the module had changes -/
+theorem insert_symExprs {ir ir' : IR} {b off repl last : Nat} {p : Patch} {blk : Block} {i : Nat} {iv : Interval}
+    (h : ir.insert b off repl p = .ok (ir', last))
+    (hb : ir.block? b = some blk) (hbi : blk.bi = some i) (hiv : ir.interval? i = some iv) :
+    ir'.exprsOf i = some (p.text.symExprs.foldl (fun m (x : Nat × SymExpr) => aset (blk.off + off + x.1) x.2 m)
+      (shiftKeys (blk.off + off) repl p.text.data.length iv.symExprs)) ∧
+    ∀ j, j ≠ i → ir.exprsOf j ≠ none → ir'.exprsOf j = ir.exprsOf j := by
+  unfold IR.insert at h
+  rw [hb] at h
+  simp only [] at h
+  split at h
+  · cases h
+  · split at h
+    · cases h
+    · rw [hbi] at h
+      split at h
+      · rename_i biId sect hbi' hsect
+        injection hbi' with hbi'; subst hbi'
+        split at h
+        · cases h
+        · split at h
+          · cases h
+          · split at h
+            · cases h
+            · split at h
+              · cases h
+              · split at h
+                · cases h
+                · rename_i ir2 endB added hs
+                  split at h
+                  · cases h
+                  · split at h
+                    · cases h
+                    · rename_i ir12 ho
+                      have hc := cleanup_intervals h
+                      simp only [bumpNext_intervals] at hc
+                      generalize hpc : (if blk.isCode then ir.matchPatchReturnEdges b p.cfg p.proxies else (p.cfg, p.proxies)).1
+                        = pcfgX at ho hc
+                      have h0 : ((ir2.addReturnEdgesForPatchCalls pcfgX).1.insertStitch p.text.blocks b endB added).intervals
+                          = ir.intervals := by
+                        rw [insertStitch_intervals, addReturnEdgesForPatchCalls_intervals, insertSplit_intervals hs]
+                      have hE := exprs_after_edit (ir2 := ((ir2.addReturnEdgesForPatchCalls pcfgX).1.insertStitch p.text.blocks b
+                        endB added).editInterval i (blk.off + off) repl p.text.data [b]) h0 hiv rfl
+                      have hK := addOthers_exprsKept ho
+                      have hmid : ∀ (x : IR) (c : List Edge) (px : List Nat) j, ((((x.placePatchBlocks p.text.blocks i
+                          (blk.off + off)).addPatchExprs i (blk.off + off)
+                          p.text.symExprs).orderInsertAfter sect b (p.text.blocks.map (·.id))).addPatchNodes p c px
+                          |>.addPatchAux p i (blk.off + off) |>.addPatchFunctions blk p.text.blocks).exprsOf j =
+                          if j = i then (x.exprsOf i).map (fun m => p.text.symExprs.foldl
+                            (fun m (y : Nat × SymExpr) => aset (blk.off + off + y.1) y.2 m) m)
+                          else x.exprsOf j := by
+                        intro x c px j
+                        rw [exprsOf_congr (by simp : _ = ((x.placePatchBlocks p.text.blocks i (blk.off + off)).addPatchExprs
+                          i (blk.off + off) p.text.symExprs).intervals)]
+                        rw [addPatchExprs_exprsOf]
+                        have hp : ∀ k, (x.placePatchBlocks p.text.blocks i (blk.off + off)).exprsOf k = x.exprsOf k :=
+                          fun k => exprsOf_congr (by simp) k
+                        split
+                        · rw [hp]
+                        · rw [hp]
+                      constructor
+                      · rw [exprsOf_congr hc, hK i (by rw [hmid]; simp [hE.1]), hmid]
+                        simp only [if_true, hE.1, Option.map_some]
+                      · intro j hj hne
+                        rw [exprsOf_congr hc, hK j (by rw [hmid]; simp only [hj, if_false]; rw [hE.2 j hj]; exact hne), hmid]
+                        simp only [hj, if_false]
+                        exact hE.2 j hj
+      · cases h
+
 end GtirbVerif.IR
